@@ -180,3 +180,566 @@ def translate_method(path, cls, method, fields, prefix, record, name=None, want_
 
 HEADER = ("(* GENERATED on every run by vlib/translate.py from the current sources of $VERIF_REPO. Do not edit. *)\n"
           "From Coq Require Import ZArith QArith Qminmax Qabs Bool.\n")
+
+
+# =====================================================================================================
+# Effectful leaf bodies (put(), _do_put(), stop() ...): observations, effects, Python's None.
+#
+# A body is translated to ONE Gallina definition
+#
+#     Definition <name> (s : <record>) (<read params>) : <record> * list <effect> [* bool] := ...
+#
+# driven by three explicit, per-function tables (an expression or statement that is in none of them and is
+# not in the numeric subset above raises Unsupported: the caller fails closed):
+#
+#   state    [(attr, type)]        mutable numeric fields of self; they form the record (read: current value,
+#                                  assignment: new value); type is "Z" or "Q"
+#   reads    [(python expression, parameter, type)]
+#                                  read-only OBSERVATIONS, matched as whole expressions (`len(self.store.items)`,
+#                                  `self.env.now`, `packet.size`, `self.qlimit`), each a parameter of the definition,
+#                                  always all of them and in table order, so the bridge's statement is stable.
+#            types:  "Z" | "Q" | "bool" (Python bool/int/float)
+#                    "optZ" / "optQ"  a value that may be None.  Python's semantics is made explicit by case
+#                             analysis: an `if` whose test mentions the parameter becomes `match p with None | Some p'`
+#                             and is translated once per case; inside a case `p is None` is a literal, truthiness
+#                             is `false` / `p' != 0`, arithmetic uses p' -- and arithmetic on a value not known to be
+#                             non-None (Python: TypeError) is Unsupported.  Strings the plugin encodes as Z with "" = 0
+#                             have the same truthiness.
+#                    "len"    a collection only its length is read of: `len(x)` is the parameter (Z), truthiness of
+#                             `x` is `p != 0`; any other use is Unsupported
+#            a 4th component "volatile" marks a read an effect may change: reading it after any effect that does
+#            not list it under `keeps` is Unsupported (stale observation)
+#   effects  [(python statement with holes _1 _2.., constructor, [hole types], keeps)]
+#                                  statement-level calls / stores whose value is unused, matched structurally; the
+#                                  constructor (applied to the translated holes) is appended to the effect list, so
+#                                  the definition returns the effects IN PROGRAM ORDER
+#   draws    [(python expression, parameter, type, constructor)]
+#                                  `name = <expression>` consuming an outside value (random.uniform(0, 1)): the value
+#                                  is the parameter, the constructor is appended to the effects; at most once per path
+#
+# Statements: assignments / augmented assignments to state fields and locals, if / elif / else, return
+# [True | False | condition] (ret="bool") or bare return (ret="unit"), pass, docstrings, print()/dprint() calls
+# (ignored: debug output; their arguments are not evaluated).  An `if` without `return` inside is joined
+# (`let '(x2, fx2) := if c then .. else .. in`): only the variables it changes are bound; an `if` that changes
+# nothing (debug printing) disappears after its test was checked to be in the subset.  An `if` with a `return`
+# inside duplicates the rest of the body into its branches.  Integer arithmetic stays in Z, `/` and any
+# operation with a Q operand is in Q (ints are injected exactly), `2 ** e` is Qpower.
+
+
+class V:
+    """a translated value: Coq term + type (Z, Q, bool)"""
+
+    def __init__(self, term, ty):
+        self.term, self.ty = term, ty
+
+
+def _parse_expr(src):
+    return ast.parse(src.strip(), mode="eval").body
+
+
+def _parse_stmt(src):
+    m = ast.parse(src.strip()).body
+    if len(m) != 1:
+        raise ValueError("pattern must be one statement: " + src)
+    return m[0]
+
+
+def _match(pat, node, binds):
+    """structural match of ast `node` against `pat`; Names _1, _2 .. in pat are holes"""
+    if isinstance(pat, ast.Name) and len(pat.id) > 1 and pat.id[0] == "_" and pat.id[1:].isdigit():
+        if pat.id in binds:
+            return ast.dump(binds[pat.id]) == ast.dump(node)
+        binds[pat.id] = node
+        return True
+    if type(pat) is not type(node):
+        return False
+    for f, pv in ast.iter_fields(pat):
+        if f in ("ctx", "type_comment", "kind"):
+            continue
+        nv = getattr(node, f, None)
+        if isinstance(pv, list):
+            if not isinstance(nv, list) or len(pv) != len(nv):
+                return False
+            for a, b in zip(pv, nv):
+                if isinstance(a, ast.AST):
+                    if not _match(a, b, binds):
+                        return False
+                elif a != b:
+                    return False
+        elif isinstance(pv, ast.AST):
+            if not isinstance(nv, ast.AST) or not _match(pv, nv, binds):
+                return False
+        elif pv != nv:
+            return False
+    return True
+
+
+def _is_none_const(e):
+    return isinstance(e, ast.Constant) and e.value is None
+
+
+class FnSpec:
+    def __init__(self, path, cls, method, name, reads=(), effects=(), draws=(), ret="unit", ignore_calls=("print", "dprint")):
+        self.path, self.cls, self.method, self.name = path, cls, method, name
+        self.reads = [tuple(r) + (("",) if len(r) == 3 else ()) for r in reads]
+        self.effects = [tuple(e) + (((),) if len(e) == 3 else ()) for e in effects]
+        self.draws, self.ret, self.ignore_calls = list(draws), ret, set(ignore_calls)
+
+
+COQ_TY = {"Z": "Z", "Q": "Q", "bool": "bool", "optZ": "option Z", "optQ": "option Q", "len": "Z"}
+
+
+class FxTr:
+    """translator of one method body (see the comment above)"""
+
+    def __init__(self, spec, state, record, prefix, effect_type):
+        self.spec, self.state, self.record, self.prefix, self.effect_type = spec, list(state), record, prefix, effect_type
+        self.reads = [(ast.dump(_parse_expr(src)), p, ty, flag) for (src, p, ty, flag) in spec.reads]
+        self.len_reads = {ast.dump(_parse_expr(src)): (p, flag) for (src, p, ty, flag) in spec.reads if ty == "len"}
+        self.effects = [(_parse_stmt(src), con, tys, keeps) for (src, con, tys, keeps) in spec.effects]
+        self.draws = [(ast.dump(_parse_expr(src)), p, ty, con) for (src, p, ty, con) in spec.draws]
+        self.volatile = {p for (_, p, _, flag) in spec.reads if flag == "volatile"}
+        self.counters = {}
+
+    # ---- environment: vars (name -> V), fx (base variable | None, [terms]), known (param -> None | narrowed name),
+    #      stale (volatile params an effect may have changed), drawn (parameters already consumed)
+    def env0(self):
+        vs = {("self", a): V(f"({self.prefix}{a} s)", ty) for a, ty in self.state}
+        return {"vars": vs, "fx": (None, []), "known": {}, "stale": set(), "drawn": set()}
+
+    @staticmethod
+    def copy(env):
+        return {"vars": dict(env["vars"]), "fx": (env["fx"][0], list(env["fx"][1])), "known": dict(env["known"]),
+                "stale": set(env["stale"]), "drawn": set(env["drawn"])}
+
+    def fresh(self, base):
+        self.counters[base] = self.counters.get(base, 0) + 1
+        return f"{base}{self.counters[base]}"
+
+    # ---- values -----------------------------------------------------------------------------------
+    @staticmethod
+    def toQ(v):
+        if v.ty == "Q":
+            return v.term
+        if v.ty == "Z":
+            m = v.term.strip("()")
+            if m.endswith("%Z") and m[:-2].strip("()").lstrip("-").isdigit():
+                return f"({m[:-2].strip('()')} # 1)"
+            return f"(inject_Z {v.term})"
+        raise Unsupported(f"a {v.ty} where a number is expected")
+
+    def read(self, e, env):
+        """the observation table entry for expression e, or None"""
+        d = ast.dump(e)
+        for (pd, p, ty, flag) in self.reads:
+            if pd == d:
+                if p in env["stale"]:
+                    raise Unsupported(f"observation {p} is read after an effect that may have changed it")
+                return p, ty
+        return None
+
+    def opt_value(self, p, env):
+        """Coq term of type option _ for the option parameter p under the current knowledge"""
+        if p not in env["known"]:
+            return p
+        k = env["known"][p]
+        return "None" if k is None else f"(Some {k})"
+
+    def expr(self, e, env):
+        r = self.read(e, env)
+        if r is not None:
+            p, ty = r
+            if ty in ("optZ", "optQ"):
+                if env["known"].get(p) is None:
+                    raise Unsupported(f"{p} may be None here (Python would raise TypeError in arithmetic)")
+                return V(env["known"][p], ty[3:])
+            if ty == "len":
+                raise Unsupported(f"the collection behind {p} is used other than through len()/truthiness")
+            return V(p, ty)
+        if isinstance(e, ast.Constant):
+            if isinstance(e.value, bool):
+                return V("true" if e.value else "false", "bool")
+            if isinstance(e.value, int):
+                return V(f"({e.value})%Z", "Z")
+            if isinstance(e.value, float):
+                f = Fraction(e.value)
+                return V(f"({f.numerator} # {f.denominator})", "Q")
+            raise Unsupported(f"constant {e.value!r}")
+        if isinstance(e, ast.Attribute) and isinstance(e.value, ast.Name) and e.value.id == "self":
+            if ("self", e.attr) in env["vars"]:
+                return env["vars"][("self", e.attr)]
+            raise Unsupported(f"self.{e.attr} is neither a state field nor a listed observation")
+        if isinstance(e, ast.Name):
+            if ("local", e.id) in env["vars"]:
+                return env["vars"][("local", e.id)]
+            raise Unsupported(f"name {e.id} (not a local assigned on every path, not a listed observation)")
+        if isinstance(e, ast.Call) and isinstance(e.func, ast.Name) and e.func.id == "len" and len(e.args) == 1 and not e.keywords:
+            d = ast.dump(e.args[0])
+            if d in self.len_reads:
+                p, _ = self.len_reads[d]
+                if p in env["stale"]:
+                    raise Unsupported(f"observation {p} is read after an effect that may have changed it")
+                return V(p, "Z")
+            raise Unsupported("len() of an expression that is not a listed observation")
+        if isinstance(e, ast.BinOp):
+            if isinstance(e.op, ast.Pow):
+                b, x = self.expr(e.left, env), self.expr(e.right, env)
+                if x.ty != "Z":
+                    raise Unsupported("** with a non-integer exponent")
+                return V(f"(Qpower {self.toQ(b)} {x.term})", "Q")
+            ops = {ast.Add: "+", ast.Sub: "-", ast.Mult: "*", ast.Div: "/"}
+            if type(e.op) not in ops:
+                raise Unsupported(f"operator {type(e.op).__name__}")
+            a, b = self.expr(e.left, env), self.expr(e.right, env)
+            if a.ty == "Z" and b.ty == "Z" and not isinstance(e.op, ast.Div):
+                return V(f"({a.term} {ops[type(e.op)]} {b.term})%Z", "Z")
+            return V(f"({self.toQ(a)} {ops[type(e.op)]} {self.toQ(b)})%Q", "Q")
+        if isinstance(e, ast.UnaryOp) and isinstance(e.op, ast.USub):
+            a = self.expr(e.operand, env)
+            return V(f"(- {a.term})%Z", "Z") if a.ty == "Z" else V(f"(- {self.toQ(a)})%Q", "Q")
+        if isinstance(e, ast.Call) and isinstance(e.func, ast.Name) and e.func.id in ("min", "max") and len(e.args) == 2 and not e.keywords:
+            a, b = self.expr(e.args[0], env), self.expr(e.args[1], env)
+            if a.ty == "Z" and b.ty == "Z":
+                return V(f"(Z.{e.func.id} {a.term} {b.term})", "Z")
+            return V(f"(Q{e.func.id} {self.toQ(a)} {self.toQ(b)})", "Q")
+        if isinstance(e, (ast.Compare, ast.BoolOp)) or (isinstance(e, ast.UnaryOp) and isinstance(e.op, ast.Not)):
+            return V(self.cond(e, env), "bool")
+        raise Unsupported(f"expression {ast.unparse(e)[:80]}")
+
+    def option_params(self, e, env):
+        """option parameters mentioned in e about which nothing is known yet"""
+        out = []
+        for n in ast.walk(e):
+            r = None
+            try:
+                r = self.read(n, env) if isinstance(n, ast.expr) else None
+            except Unsupported:
+                pass
+            if r and r[1] in ("optZ", "optQ") and r[0] not in env["known"] and r[0] not in out:
+                out.append(r[0])
+        return out
+
+    def cond(self, e, env):
+        """e in a boolean context (Python truthiness), as a Coq bool; literals are folded"""
+        if isinstance(e, ast.Compare):
+            if len(e.ops) != 1:
+                raise Unsupported("chained comparison")
+            l, r, op = e.left, e.comparators[0], type(e.ops[0])
+            if op in (ast.Is, ast.IsNot):
+                if not _is_none_const(r):
+                    raise Unsupported("`is` against something other than None (list it as an observation)")
+                rd = self.read(l, env)
+                if rd is None or rd[1] not in ("optZ", "optQ"):
+                    raise Unsupported(f"`{ast.unparse(l)} is None` on something that is not an option observation")
+                if rd[0] not in env["known"]:
+                    raise Unsupported(f"`{ast.unparse(e)}` outside the test of an if statement")
+                isnone = env["known"][rd[0]] is None
+                return "true" if isnone == (op is ast.Is) else "false"
+            a, b = self.expr(l, env), self.expr(r, env)
+            if a.ty == "bool" and b.ty == "bool" and op in (ast.Eq, ast.NotEq):
+                t = f"(Bool.eqb {a.term} {b.term})"
+                return t if op is ast.Eq else f"(negb {t})"
+            if a.ty == "Z" and b.ty == "Z":
+                x, y = a.term, b.term
+                t = {ast.LtE: f"(Z.leb {x} {y})", ast.GtE: f"(Z.leb {y} {x})", ast.Lt: f"(Z.ltb {x} {y})",
+                     ast.Gt: f"(Z.ltb {y} {x})", ast.Eq: f"(Z.eqb {x} {y})", ast.NotEq: f"(negb (Z.eqb {x} {y}))"}.get(op)
+            else:
+                x, y = self.toQ(a), self.toQ(b)
+                t = {ast.LtE: f"(Qle_bool {x} {y})", ast.GtE: f"(Qle_bool {y} {x})", ast.Lt: f"(negb (Qle_bool {y} {x}))",
+                     ast.Gt: f"(negb (Qle_bool {x} {y}))", ast.Eq: f"(Qeq_bool {x} {y})",
+                     ast.NotEq: f"(negb (Qeq_bool {x} {y}))"}.get(op)
+            if t is None:
+                raise Unsupported("comparison operator")
+            return t
+        if isinstance(e, ast.BoolOp):
+            parts = [self.cond(v, env) for v in e.values]
+            if isinstance(e.op, ast.And):
+                if "false" in parts:
+                    return "false"
+                parts = [p for p in parts if p != "true"]
+                return "true" if not parts else parts[0] if len(parts) == 1 else "(" + " && ".join(parts) + ")"
+            if "true" in parts:
+                return "true"
+            parts = [p for p in parts if p != "false"]
+            return "false" if not parts else parts[0] if len(parts) == 1 else "(" + " || ".join(parts) + ")"
+        if isinstance(e, ast.UnaryOp) and isinstance(e.op, ast.Not):
+            c = self.cond(e.operand, env)
+            return {"true": "false", "false": "true"}.get(c, f"(negb {c})")
+        # truthiness of a value
+        d = ast.dump(e)
+        if d in self.len_reads:
+            p, _ = self.len_reads[d]
+            if p in env["stale"]:
+                raise Unsupported(f"observation {p} is read after an effect that may have changed it")
+            return f"(negb (Z.eqb {p} 0))"
+        rd = self.read(e, env)
+        if rd is not None and rd[1] in ("optZ", "optQ"):
+            if rd[0] not in env["known"]:
+                raise Unsupported(f"truthiness of {rd[0]} outside the test of an if statement")
+            k = env["known"][rd[0]]
+            if k is None:
+                return "false"
+            return f"(negb (Z.eqb {k} 0))" if rd[1] == "optZ" else f"(negb (Qeq_bool {k} 0))"
+        v = self.expr(e, env)
+        if v.ty == "bool":
+            return v.term
+        if v.ty == "Z":
+            return f"(negb (Z.eqb {v.term} 0))"
+        if v.ty == "Q":
+            return f"(negb (Qeq_bool {v.term} 0))"
+        raise Unsupported(f"truthiness of {ast.unparse(e)[:60]}")
+
+    # ---- effects ----------------------------------------------------------------------------------
+    def hole(self, node, ty, env):
+        if ty in ("optZ", "optQ"):
+            rd = self.read(node, env)
+            if rd is not None and rd[1] == ty:
+                return self.opt_value(rd[0], env)
+            if _is_none_const(node):
+                return "None"
+            return f"(Some {self.hole(node, ty[3:], env)})"
+        if ty == "bool":
+            return self.cond(node, env)
+        v = self.expr(node, env)
+        if ty == "Q":
+            return self.toQ(v)
+        if ty == v.ty:
+            return v.term
+        raise Unsupported(f"effect argument {ast.unparse(node)[:60]} has type {v.ty}, expected {ty}")
+
+    def effect(self, s, env):
+        """-> new env if statement s is a listed effect, else None"""
+        for (pat, con, tys, keeps) in self.effects:
+            binds = {}
+            if _match(pat, s, binds):
+                names = sorted(binds, key=lambda n: int(n[1:]))
+                if len(names) != len(tys):
+                    raise Unsupported(f"effect pattern of {con}: {len(names)} holes, {len(tys)} types")
+                args = [self.hole(binds[n], ty, env) for n, ty in zip(names, tys)]
+                env2 = self.copy(env)
+                env2["fx"][1].append(con if not args else "(" + " ".join([con] + args) + ")")
+                env2["stale"] |= {p for p in self.volatile if p not in keeps}
+                return env2
+        return None
+
+    @staticmethod
+    def fx_term(fx):
+        base, items = fx
+        lst = "[" + "; ".join(items) + "]"
+        if base is None:
+            return lst
+        return base if not items else f"({base} ++ {lst})"
+
+    # ---- statements -------------------------------------------------------------------------------
+    def final(self, env, ret):
+        parts = []
+        if self.state:
+            parts.append("{| " + "; ".join(f"{self.prefix}{a} := {env['vars'][('self', a)].term}" for a, _ in self.state) + " |}")
+        parts.append(self.fx_term(env["fx"]))
+        if self.spec.ret == "bool":
+            parts.append(ret)
+        return parts[0] if len(parts) == 1 else "(" + ", ".join(parts) + ")"
+
+    def bind(self, key, v, env):
+        """let-bind a new value of variable key; returns (let line, env')"""
+        n = self.fresh(key[1])
+        env2 = self.copy(env)
+        env2["vars"][key] = V(n, v.ty)
+        return f"let {n} := {v.term} in\n", env2
+
+    def block(self, stmts, env, k):
+        """k(env, ret) renders the end of the body (ret = Coq bool term of the returned value, or None)"""
+        if not stmts:
+            if self.spec.ret != "unit":
+                raise Unsupported("a path ends without `return <bool>`")
+            return k(env, None)
+        s, rest = stmts[0], stmts[1:]
+        env2 = self.effect(s, env)
+        if env2 is not None:
+            return self.block(rest, env2, k)
+        if isinstance(s, ast.Pass):
+            return self.block(rest, env, k)
+        if isinstance(s, ast.Expr):
+            c = s.value
+            if isinstance(c, ast.Constant) and isinstance(c.value, str):
+                return self.block(rest, env, k)
+            if isinstance(c, ast.Call) and ((isinstance(c.func, ast.Attribute) and c.func.attr in self.spec.ignore_calls) or
+                                            (isinstance(c.func, ast.Name) and c.func.id in self.spec.ignore_calls)):
+                return self.block(rest, env, k)
+            raise Unsupported(f"statement `{ast.unparse(s)[:80]}` is not a listed effect")
+        if isinstance(s, ast.Return):
+            if self.spec.ret == "unit":
+                if s.value is not None and not _is_none_const(s.value):
+                    raise Unsupported("return with a value in a procedure")
+                return k(env, None)
+            if s.value is None:
+                raise Unsupported("bare return where a bool is expected")
+            return k(env, self.cond(s.value, env))
+        if isinstance(s, (ast.Assign, ast.AugAssign)):
+            if isinstance(s, ast.Assign):
+                if len(s.targets) != 1:
+                    raise Unsupported("multiple targets")
+                tgt = s.targets[0]
+                d = ast.dump(s.value)
+                for (dd, p, ty, con) in self.draws:
+                    if dd == d:
+                        if not isinstance(tgt, ast.Name):
+                            raise Unsupported("a draw must be assigned to a local name")
+                        if p in env["drawn"]:
+                            raise Unsupported(f"second draw of {p} on one path")
+                        env2 = self.copy(env)
+                        env2["drawn"].add(p)
+                        env2["fx"][1].append(con)
+                        env2["vars"][("local", tgt.id)] = V(p, ty)
+                        return self.block(rest, env2, k)
+                val = self.expr(s.value, env)
+            else:
+                tgt = s.target
+                ops = {ast.Add: "+", ast.Sub: "-", ast.Mult: "*", ast.Div: "/"}
+                if type(s.op) not in ops:
+                    raise Unsupported("augmented operator")
+                val = self.expr(ast.BinOp(left=tgt, op=s.op, right=s.value), env)
+            if isinstance(tgt, ast.Attribute) and isinstance(tgt.value, ast.Name) and tgt.value.id == "self":
+                key = ("self", tgt.attr)
+                if key not in env["vars"]:
+                    raise Unsupported(f"assignment to self.{tgt.attr}: neither a state field nor a listed effect")
+                ty = dict(self.state)[tgt.attr]
+                if ty == "Q":
+                    val = V(self.toQ(val), "Q")
+                elif val.ty != ty:
+                    raise Unsupported(f"self.{tgt.attr} : {ty} assigned a {val.ty}")
+            elif isinstance(tgt, ast.Name):
+                if self.read(tgt, env) is not None:
+                    raise Unsupported(f"assignment to the observed name {tgt.id}")
+                key = ("local", tgt.id)
+            else:
+                raise Unsupported(f"assignment target `{ast.unparse(tgt)[:60]}` is not a listed effect")
+            line, env2 = self.bind(key, val, env)
+            return line + self.block(rest, env2, k)
+        if isinstance(s, ast.If):
+            return self.do_if(s, rest, env, k)
+        raise Unsupported(f"statement {type(s).__name__}")
+
+    def do_if(self, s, rest, env, k):
+        joinable = not any(isinstance(n, ast.Return) for n in ast.walk(s))
+        unk = self.option_params(s.test, env)
+        if unk:
+            p = unk[0]
+            q = p + "'"
+            envN, envS = self.copy(env), self.copy(env)
+            envN["known"][p] = None
+            envS["known"][p] = q
+            arms = [(f"| None =>", envN, [s]), (f"| Some {q} =>", envS, [s])]
+            head, tail = f"match {p} with", "end"
+        else:
+            c = self.cond(s.test, env)
+            if c == "true":
+                return self.block(list(s.body) + rest, env, k)
+            if c == "false":
+                return self.block(list(s.orelse) + rest, env, k)
+            arms = [("then", env, list(s.body)), ("else", env, list(s.orelse))]
+            head, tail = f"if {c}", ""
+        if not joinable:
+            out = f"({head}\n"
+            for (h, e, body) in arms:
+                out += f" {h} {self.block(body + rest, e, k)}\n"
+            return out + f" {tail})"
+        # join: pass 1 finds what the statement changes, pass 2 renders the arms returning exactly that
+        saved = dict(self.counters)
+        ends = []
+        old_ret = self.spec.ret
+        self.spec.ret = "unit"                     # the arms end without return by construction
+        try:
+            for (h, e, body) in arms:
+                cap = []
+                self.block(body, e, lambda env_, ret_, cap=cap: cap.append(env_) or "")
+                ends.append(cap[0])
+            changed = []
+            for key in env["vars"]:
+                if any(key not in e["vars"] or e["vars"][key].term != env["vars"][key].term for e in ends):
+                    changed.append(key)
+            newlocals = [key for key in ends[0]["vars"] if key not in env["vars"] and all(key in e["vars"] for e in ends)]
+            changed += newlocals
+            fx_changed = any(self.fx_term(e["fx"]) != self.fx_term(env["fx"]) for e in ends)
+            tys = {}
+            for key in changed:
+                ts = {e["vars"][key].ty for e in ends}
+                tys[key] = ts.pop() if len(ts) == 1 else ("Q" if ts <= {"Z", "Q"} else None)
+                if tys[key] is None:
+                    raise Unsupported(f"{key[1]} has different types after the branches of an if")
+            for e in ends:
+                if e["drawn"] != env["drawn"] and any(e2["drawn"] != e["drawn"] for e2 in ends):
+                    pass                            # a draw in one branch only: allowed, recorded below
+            self.counters = dict(saved)
+
+            def tup(env_, ret_):
+                items = [(self.toQ(env_["vars"][key]) if tys[key] == "Q" else env_["vars"][key].term) for key in changed]
+                if fx_changed:
+                    items.append(self.fx_term(env_["fx"]))
+                return items[0] if len(items) == 1 else "(" + ", ".join(items) + ")"
+            if not changed and not fx_changed:
+                self.counters = dict(saved)
+                out_env = self.copy(env)
+            else:
+                rendered = [(h, self.block(body, e, tup)) for (h, e, body) in arms]
+                out_env = self.copy(env)
+                names = []
+                for key in changed:
+                    n = self.fresh(key[1])
+                    out_env["vars"][key] = V(n, tys[key])
+                    names.append(n)
+                if fx_changed:
+                    n = self.fresh("fx")
+                    out_env["fx"] = (n, [])
+                    names.append(n)
+                pat = names[0] if len(names) == 1 else "'(" + ", ".join(names) + ")"
+        finally:
+            self.spec.ret = old_ret
+        for e in ends:
+            out_env["stale"] |= e["stale"]
+            out_env["drawn"] |= e["drawn"]
+        if not changed and not fx_changed:
+            return self.block(rest, out_env, k)
+        body = f"({head}\n" + "".join(f"     {h} {r}\n" for h, r in rendered) + f"     {tail})"
+        return f"let {pat} :=\n    {body} in\n" + self.block(rest, out_env, k)
+
+
+def translate_fn(spec, state, record, prefix, effect_type):
+    """Gallina definition of one method (FnSpec) over the shared state record / effect type"""
+    f = find_method(spec.path, spec.cls, spec.method)
+    if f.args.vararg or f.args.kwarg or f.args.kwonlyargs or f.decorator_list or f.args.defaults:
+        raise Unsupported(f"{spec.cls}.{spec.method}: signature")
+    tr = FxTr(spec, state, record, prefix, effect_type)
+    body = tr.block(list(f.body), tr.env0(), tr.final)
+    ps = (f" (s : {record})" if state else "")
+    for (_, p, ty, _) in spec.reads:
+        ps += f" ({p} : {COQ_TY[ty]})"
+    for (_, p, ty, _) in spec.draws:
+        ps += f" ({p} : {COQ_TY[ty]})"
+    rt = ([record] if state else []) + [f"list {effect_type}"] + (["bool"] if spec.ret == "bool" else [])
+    src = " ".join(l.strip() for l in ast.unparse(f).splitlines()[:1])
+    return (f"(* {spec.cls}.{spec.method}  ({src}) *)\n"
+            f"Definition {spec.name}{ps}\n  : {' * '.join(rt)} :=\n{body}.\n")
+
+
+def gen_module(title, record, prefix, state, effect_type, constructors, specs):
+    """text of a Gen/Extracted_*.v: the state record, the effect inductive (constructors = [(name, "(k : option Z) (t : Q)")])
+    and one definition per FnSpec"""
+    out = [HEADER.rstrip("\n"), "From Coq Require Import List.", "Import ListNotations.", f"(* {title} *)", ""]
+    if state:
+        out.append(f"Record {record} := {{ " + "; ".join(f"{prefix}{a} : {COQ_TY[ty]}" for a, ty in state) + " }.")
+    out.append(f"Inductive {effect_type} :=\n" + "\n".join(f"| {c} {args}".rstrip() for c, args in constructors) + ".")
+    out.append("")
+    for sp in specs:
+        out.append(translate_fn(sp, state, record, prefix, effect_type))
+    return "\n".join(out)
+
+
+def write_if_changed(path, text):
+    import os
+    os.makedirs(os.path.dirname(path), exist_ok=True)
+    old = open(path).read() if os.path.exists(path) else None
+    if old != text:
+        with open(path, "w") as fh:
+            fh.write(text)
+    return path
